@@ -387,6 +387,33 @@ func (P) Generate(g *core.Gen) {
 			}
 		}
 	}
+	// 1b. boundary triples: every version-gated message kind and ping form at
+	// gate-1 / gate / gate+1 of the negotiated version, followed by one more
+	// message so that an unexpected disconnect is visible.
+	for _, gate := range []int64{209, 31402, 60000, 60001, 60002, 70001, 70002, 70012, 70013, 70016} {
+		for _, neg := range []int64{gate - 1, gate, gate + 1} {
+			for _, probe := range []string{"pe", "ps", "p:7", "m:pong", "m:mempool", "m:filterclear", "m:reject",
+				"m:sendheaders", "m:feefilter", "m:sendaddrv2", "unk", "m:verack"} {
+				if neg < 209 || neg > 70016 {
+					continue
+				}
+				in := r.Bool()
+				ours, theirs := int64(70016), neg
+				if r.Bool() {
+					ours, theirs = neg, 70016
+				}
+				toks := finishScript([]string{fmt.Sprintf("v:%d:0", theirs), "m:verack", probe, "m:getaddr"}, ours)
+				if neg <= 60000 && (probe == "pe" || probe == "p:7") {
+					toks = []string{toks[0], toks[1], probe, "S", "m:getaddr"}
+				}
+				g.Case("hs-boundary", true, hsLine(in, ours, false, false, false, false, toks))
+				if probe == "m:sendaddrv2" || probe == "unk" {
+					toks = finishScript([]string{fmt.Sprintf("v:%d:0", theirs), probe, "m:verack", "m:getaddr"}, ours)
+					g.Case("hs-boundary", true, hsLine(in, ours, false, false, false, false, toks))
+				}
+			}
+		}
+	}
 	// 2. random scripts, every configuration.
 	for i, n := 0, g.N(2500, 80000); i < n; i++ {
 		class, nt, line := randHS(r)
